@@ -168,14 +168,19 @@ class WorldGen:
     def common_kw(self, kw, kind):
         rng = self.rng
         if self.sw.on["const_enum"] and self.maybe(0.15):
+            pick = lambda: (
+                rng.choice([0, 1, True, False, 1.0, 0.0])
+                if rng.random() < 0.2
+                else self.literal_for(kind)
+            )
             if rng.random() < 0.5:
-                kw["const"] = self.literal_for(kind)
+                kw["const"] = pick()
             else:
-                kw["enum"] = [
-                    self.literal_for(kind) for _ in range(rng.randint(1, 4))
-                ]
+                kw["enum"] = [pick() for _ in range(rng.randint(1, 4))]
         if self.sw.on["defaults"] and self.maybe(0.25):
-            if self.sw.on["bad_defaults"] and rng.random() < 0.3:
+            if rng.random() < 0.1:
+                kw["default"] = None  # JSON null is a value, not "no default"
+            elif self.sw.on["bad_defaults"] and rng.random() < 0.3:
                 kw["default"] = self.literal()
             else:
                 kw["default"] = self.literal_for(kind)
@@ -517,6 +522,9 @@ def _string_instance(rng, el):
         base = _sample_for_pattern(rng, pattern)
     else:
         base = rng.choice(STRS)
+    if rng.random() < 0.03:
+        # a long string (fast paths for short strings are a classic)
+        base = (base or "a") * rng.choice([40, 90, 200])
     lo = getattr(el, "minLength", NotPassed())
     hi = getattr(el, "maxLength", NotPassed())
     if not _np(lo) and isinstance(lo, int) and len(base) < lo:
@@ -738,6 +746,8 @@ def mutate(rng, value, depth=0):
             return rng.choice(EDGE_NUMBERS + [0.5])
         return rng.choice([value + 0.5, -value, int(value), str(value)])
     if isinstance(value, str):
+        if rng.random() < 0.04:
+            return (value or "ab") * rng.choice([50, 150])
         return rng.choice([value + "x", value[:-1], value.upper(), 0, value + value + "abcdefg", None])
     return rng.choice([0, "", [], {}])
 
@@ -754,6 +764,14 @@ def _bool_containers(rng):
             [[1, [True]], [1, [1]]],
         ]
     )
+
+
+def deep_value(rng, lo=30, hi=70):
+    """Data nested `lo`..`hi` levels deep (lists and single-key dicts)."""
+    val = rng.choice([0, "a", None])
+    for _ in range(rng.randint(lo, hi)):
+        val = [val] if rng.random() < 0.6 else {"a": val}
+    return val
 
 
 def gen_value(rng, el):
